@@ -292,7 +292,14 @@ def branches (d : Doc2 Json) (excl : List String) : List String :=
     d.loc.schemes.map (fun s => "loc.scheme." ++ s) ++
     (if d.security.isSome then ["doc.security"] else []) ++
     (if !d.consumes.isEmpty then ["doc.consumes"] else []) ++ (if !d.produces.isEmpty then ["doc.produces"] else []) ++
-    excl.map (fun e => "excl." ++ e)
+    excl.map (fun e => "excl." ++ e) ++
+    -- which hypotheses of the document-level theorems this input satisfies (the fragments are decidable)
+    (if excl.isEmpty then ["frag.noExclusion"] else []) ++
+    (if docSimple d then ["frag.docSimple"] else []) ++ (if docSimpleBack d then ["frag.docSimpleBack"] else []) ++
+    (if docBody d then ["frag.docBody"] else []) ++ (if docBodyBack d then ["frag.docBodyBack"] else []) ++
+    (if docInputs d then ["frag.docInputs"] else []) ++ (if docInputs d && !docBody d then ["frag.docInputs.only"] else []) ++
+    (if docBody d && !docSimple d then ["frag.docBody.only"] else []) ++
+    (if docBodyBack d && !docSimpleBack d then ["frag.docBodyBack.only"] else [])
   raw.eraseDups
 
 def handle (j : Json) : Json :=
